@@ -17,6 +17,8 @@ type Scenario struct {
 	// Quick / Thorough are the numbers of runs per tier.
 	Quick    int
 	Thorough int
+	// RaceOnly: run in the -race build only (all of the scenario's runs).
+	RaceOnly bool
 	// Race: also run (a tenth of the runs) in a -race build with masked hand-offs.
 	Race bool
 	// Level is the evidence level this scenario supports (exploration unless set).
